@@ -76,6 +76,8 @@ type Ctx struct {
 	paramIDs  map[string]bool
 	unfoldDepth int
 	frameActive bool
+	inGo        int
+	goAlloc     T
 	locMode     bool
 	frameAll    bool
 	frameAllowed map[string][]T
@@ -95,6 +97,14 @@ func (c *Ctx) setHeap(st *State, name string, v T, key *T) {
 	st.heaps[name] = v
 	if c.frameActive && c.specMode == 0 && key != nil && c.inlineDepthOK() {
 		c.frameObligation(st, name, *key)
+	}
+	if c.inGo > 0 && c.specMode == 0 && key != nil && strings.HasPrefix(name, "H.") && key.S != c.goAlloc.S {
+		// a goroutine body may only write memory it allocated itself (index vectors,
+		// scratch slices); everything captured from the spawning function is shared
+		if !strings.HasPrefix(key.S, "(+ "+baseOfTerm(c.goAlloc.S)+" ") || !laterOffset(key.S, c.goAlloc.S) {
+			c.oblige(st, "frame", "C05.shared-readonly", []string{"C05"}, app(SBool, ">=", *key, c.goAlloc), token.NoPos,
+				fmt.Sprintf("a write in a goroutine body goes to memory allocated by that body (written object %s)", key.S))
+		}
 	}
 	if _, ok := c.heapSorts[name]; !ok {
 		c.heapSorts[name] = v.K
@@ -131,6 +141,12 @@ func (c *Ctx) frameObligation(st *State, heap string, key T) {
 		return
 	}
 	alts = append(alts, app(SBool, ">=", key, c.entryAlloc))
+	if c.fc != nil && c.fc.LocModel && strings.HasPrefix(heap, "F.") {
+		// C14: Run / ApplyParameters store nothing into the model object beyond the declared fields
+		c.oblige(st, "frame", "C14.receiver-frame", []string{"C14"}, or(alts...), token.NoPos,
+			fmt.Sprintf("a store into %s stays within the assigns clause (no information is retained in the model object)", heap))
+		return
+	}
 	c.oblige(st, "frame", "assigns", nil, or(alts...), token.NoPos, fmt.Sprintf("a write to %s[%s] stays within the assigns clause (assigned object or fresh memory)", heap, key.S))
 }
 
@@ -1047,7 +1063,12 @@ func (fr *Frame) execInstr(instr ssa.Instruction, st *State) {
 		// goroutine bodies are verified sequentially (A-SEQ); race freedom
 		// follows from the disjoint write footprints proved for them
 		c.note("A-SEQ: `go f(x)` is treated as the call f(x); channel operations are no-ops")
+		saved := c.goAlloc
+		c.goAlloc = st.alloc
+		c.inGo++
 		fr.call(goValue{in}, &in.Call, st)
+		c.inGo--
+		c.goAlloc = saved
 	case *ssa.MakeChan:
 		fr.vals[in] = OpaqueV{"chan"}
 	case *ssa.Send:
@@ -1732,3 +1753,17 @@ func (v goValue) Type() types.Type              { return types.NewTuple() }
 func (v goValue) Parent() *ssa.Function         { return v.g.Parent() }
 func (v goValue) Referrers() *[]ssa.Instruction { return nil }
 func (v goValue) Pos() token.Pos                { return v.g.Pos() }
+
+func baseOfTerm(s string) string {
+	if b, _, ok := splitBaseOff(s); ok {
+		return b
+	}
+	return s
+}
+
+// laterOffset: both terms are base+offset over the same base and a's offset is not smaller.
+func laterOffset(a, b string) bool {
+	ba, na, ok1 := splitBaseOff(a)
+	bb, nb, ok2 := splitBaseOff(b)
+	return ok1 && ok2 && ba == bb && na >= nb
+}
